@@ -9,5 +9,6 @@ CONSTANTS
   SyncStates = {}
   StrictPolicy = TRUE
   WithEvents = TRUE
+  FlushOnError = TRUE
   ConsistentEnv = TRUE
 CHECK_DEADLOCK FALSE
